@@ -108,14 +108,19 @@ impl GameData {
 
             let repository_paths: Vec<DirEntry> = repository_paths
                 .filter_map(Result::ok)
-                .filter(|s| s.file_type().unwrap().is_dir())
+                .filter(|s| s.file_type().map(|t| t.is_dir()).unwrap_or(false))
                 .collect();
 
             for repository_path in repository_paths {
-                if let Some(expansion_repository) = Repository::from_existing_expansion(
-                    platform.clone(),
-                    repository_path.path().to_str().unwrap(),
-                ) {
+                // a directory whose name is not UTF-8 cannot be a repository
+                let repository_path = repository_path.path();
+                let Some(repository_path) = repository_path.to_str() else {
+                    continue;
+                };
+
+                if let Some(expansion_repository) =
+                    Repository::from_existing_expansion(platform.clone(), repository_path)
+                {
                     self.repositories.push(expansion_repository);
                 }
             }
